@@ -138,6 +138,12 @@ C_SameKeySame(ev) ==
      /\ S!PhraseKey(SpecOutcome(ev).m, ev.pc, Len(ev.s)) = S!PhraseKey(SpecOutcome(ev).m, T[ev.bprev].pc, Len(T[ev.bprev].s)))
   => ev.out = T[ev.bprev].out
 \* C10: a setting produced by crypt_gensalt* hashes successfully and is kept literally in the hash
+\* C02 (cross-release): the interpretation of the uninterpreted Hash on the corpus is the graph of the
+\* RELEASED libcrypt.so.1 (events with rel = 1, recorded from the released library or loaded from
+\* /verif/golden); a call of the tree under test must reproduce it byte for byte.
+C02_Released(ev) ==
+  (ev.rel = 0 /\ ev.kprev > 0 /\ ev.kprev < l /\ IsHashEv(T[ev.kprev].e) /\ T[ev.kprev].rel = 1 /\ SameRequest(T[ev.kprev], ev))
+  => (ev.out = T[ev.kprev].out /\ ObservedSuccess(ev) = ObservedSuccess(T[ev.kprev]))
 C18_CanHash(ev) == (ObservedSuccess(ev) /\ ev.snull = 0) => S!Checksalt(Enabled, ev.s) # S!SALT_INVALID
 C_Literal(ev) == ev.gs = 1 => (ObservedSuccess(ev) /\ S!StartsWith(ev.out, ev.s))
 \* C14: the handle after crypt_ra
@@ -181,6 +187,7 @@ JudgeHash(ev) ==
               \cup (IF C_Handle(ev) THEN {} ELSE {V("C14", "Handle")})
               \cup (IF C_Literal(ev) THEN {} ELSE {V("C10", "Literal")})
               \cup (IF C18_CanHash(ev) THEN {} ELSE {V("C18", "CanHash")})
+              \cup (IF C02_Released(ev) THEN {} ELSE {V("C02", "Released")})
               \cup (IF AnyFault(ev) /\ ~C_Balanced(ev) THEN {V("C15", "Balanced")} ELSE {})
   IN [viol |-> coreV \cup conc,
       div |-> IF AnyFault(ev) THEN {}
